@@ -266,6 +266,68 @@ theorem absorb_state_10 (s : KState α) (z r : α) :
   simp only [absorbCore, sum2, sum1]
   congr 1 <;> ring
 
+/-! ### `absorb_measurement` with a general measurement row `(h0 h1)` -/
+
+/-- innovation variance for a general row and symmetric covariance: `h P hᵀ + R` -/
+def innovGen (P : Mat2 α) (h0 h1 r : α) : α :=
+  h0 * h0 * P.a00 + 2 * (h0 * h1 * P.a01) + h1 * h1 * P.a11 + r
+
+/-- closed form of `absorb_measurement` for a general row (symmetric prior, `S ≠ 0`):
+    `P' = P − u uᵀ / S` with `u = P hᵀ` -/
+theorem absorbCore_general (s : KState α) (h0 h1 z r : α) (hs : s.P.a01 = s.P.a10)
+    (hS : innovGen s.P h0 h1 r ≠ 0) :
+    (absorbCore s h0 h1 z r).innov = innovGen s.P h0 h1 r ∧
+    (absorbCore s h0 h1 z r).st.P =
+      (let S := innovGen s.P h0 h1 r
+       let u0 := s.P.a00 * h0 + s.P.a01 * h1
+       let u1 := s.P.a01 * h0 + s.P.a11 * h1
+       { a00 := s.P.a00 - u0 * u0 / S, a01 := s.P.a01 - u0 * u1 / S,
+         a10 := s.P.a01 - u0 * u1 / S, a11 := s.P.a11 - u1 * u1 / S }) := by
+  have hinn : (absorbCore s h0 h1 z r).innov = innovGen s.P h0 h1 r := by
+    simp only [absorbCore, sum2, innovGen]; rw [← hs]; ring
+  refine ⟨hinn, ?_⟩
+  have hS' : sum2 (sum2 (h0 * s.P.a00) (h1 * s.P.a10) * h0) (sum2 (h0 * s.P.a01) (h1 * s.P.a11) * h1) + r
+      = innovGen s.P h0 h1 r := by
+    simp only [sum2, innovGen]; rw [← hs]; ring
+  simp only [absorbCore, Mat2.mul, Mat2.sub, Mat2.unit, Mat2.symmetrize, hS']
+  simp only [sum2, sum1]
+  rw [← hs]
+  congr 1 <;> (field_simp; ring)
+
+/-- **absorb_measurement keeps symmetric PSD covariances symmetric PSD for EVERY measurement row**
+    (`R ≥ 0`, innovation variance `S = h P hᵀ + R > 0`).  Key identities:
+    `P'₀₀·S = P₀₀·R + h1²·det P`, `P'₁₁·S = P₁₁·R + h0²·det P`, `det P' = det P · R / S`. -/
+theorem absorb_psd_general (s : KState α) (h0 h1 z r : α) (hP : PSD s.P) (hr : 0 ≤ r)
+    (hS : 0 < innovGen s.P h0 h1 r) : PSD (absorbCore s h0 h1 z r).st.P := by
+  obtain ⟨hs, ha, hc, hd⟩ := hP
+  rw [(absorbCore_general s h0 h1 z r hs (ne_of_gt hS)).2]
+  simp only
+  have hS' := ne_of_gt hS
+  have hdet : 0 ≤ s.P.a00 * s.P.a11 - s.P.a01 * s.P.a01 := by linarith
+  have e00 : s.P.a00 - (s.P.a00 * h0 + s.P.a01 * h1) * (s.P.a00 * h0 + s.P.a01 * h1) / innovGen s.P h0 h1 r
+      = (s.P.a00 * r + h1 * h1 * (s.P.a00 * s.P.a11 - s.P.a01 * s.P.a01)) / innovGen s.P h0 h1 r := by
+    field_simp; simp only [innovGen]; ring
+  have e11 : s.P.a11 - (s.P.a01 * h0 + s.P.a11 * h1) * (s.P.a01 * h0 + s.P.a11 * h1) / innovGen s.P h0 h1 r
+      = (s.P.a11 * r + h0 * h0 * (s.P.a00 * s.P.a11 - s.P.a01 * s.P.a01)) / innovGen s.P h0 h1 r := by
+    field_simp; simp only [innovGen]; ring
+  refine ⟨rfl, ?_, ?_, ?_⟩
+  · show 0 ≤ _ - _ / _
+    rw [e00]
+    exact div_nonneg (by have := mul_nonneg ha hr; have := mul_nonneg (mul_self_nonneg h1) hdet; linarith) hS.le
+  · show 0 ≤ _ - _ / _
+    rw [e11]
+    exact div_nonneg (by have := mul_nonneg hc hr; have := mul_nonneg (mul_self_nonneg h0) hdet; linarith) hS.le
+  · show _ * _ ≤ _ * _
+    have key : (s.P.a00 - (s.P.a00 * h0 + s.P.a01 * h1) * (s.P.a00 * h0 + s.P.a01 * h1) / innovGen s.P h0 h1 r)
+          * (s.P.a11 - (s.P.a01 * h0 + s.P.a11 * h1) * (s.P.a01 * h0 + s.P.a11 * h1) / innovGen s.P h0 h1 r)
+        - (s.P.a01 - (s.P.a00 * h0 + s.P.a01 * h1) * (s.P.a01 * h0 + s.P.a11 * h1) / innovGen s.P h0 h1 r)
+          * (s.P.a01 - (s.P.a00 * h0 + s.P.a01 * h1) * (s.P.a01 * h0 + s.P.a11 * h1) / innovGen s.P h0 h1 r)
+        = (s.P.a00 * s.P.a11 - s.P.a01 * s.P.a01) * r / innovGen s.P h0 h1 r := by
+      field_simp; simp only [innovGen]; ring
+    have : 0 ≤ (s.P.a00 * s.P.a11 - s.P.a01 * s.P.a01) * r / innovGen s.P h0 h1 r :=
+      div_nonneg (mul_nonneg hdet hr) hS.le
+    linarith
+
 /-! ### `add_server_dispersion`, `merge`, root dispersion -/
 
 theorem addServerDispersion_psd (s : KState α) (d : α) (hP : PSD s.P) :
